@@ -68,10 +68,11 @@ Lemma random_index_floor d n :
 Proof.
   cbn zeta. unfold random_index.
   pose proof (pow10_pos (d_scale d)) as Hp.
-  set (p := 10 ^ d_scale d) in *. set (a := d_mant d * n).
+  generalize dependent (10 ^ d_scale d). generalize (d_mant d * n). intros a p Hp.
   pose proof (N.div_mod a p ltac:(lia)) as Hdm.
   pose proof (N.mod_lt a p ltac:(lia)) as Hlt.
-  nia.
+  rewrite N.mul_add_distr_r, N.mul_1_l, (N.mul_comm (a / p) p).
+  generalize dependent (p * (a / p)). generalize dependent (a mod p). intros. lia.
 Qed.
 
 Lemma random_index_lt d n :
